@@ -3,6 +3,7 @@
 // exhaustive enumeration of the small finite sub-spaces.
 #include "prog.hpp"
 #include "props.hpp"
+#include <thread>
 
 using namespace prog;
 
@@ -254,6 +255,24 @@ void prop_c13(hz::Ctx &ctx) {
     ctx.cls("part:exhaustive"); if (pads) { ctx.cls("pad:required"); ctx.nontrivial(std::to_string(c) + "/" + std::to_string(start % c) + "/" + std::to_string(solo(k.lines[shape ? 1 : 0], k.combo).size())); }
     if (ctx.want_sample()) ctx.put_sample("chunk " + std::to_string(c) + ", start " + std::to_string(start) + ": " + join(k.lines, " ; ") + " -> " + (v.ok ? std::to_string(pads) + " pad(s), valid layout" : v.symptom));
     if (!v.ok) ctx.fail(failck(k, v));
+  }
+  // several threads fitting at the same time, each on its own instances: every thread must get the layouts it gets alone
+  {
+    int rounds = ctx.thorough() ? 200 : 32;
+    for (int rd = 0; rd < rounds; rd++) {
+      if (!ctx.take()) continue;
+      std::string id = "C13T|" + std::to_string(rd) + "|" + std::to_string(ctx.seed); if (!ctx.begin(id, "4 threads fitting concurrently")) continue;
+      ctx.cls("part:concurrent-instances"); ctx.nontrivial(id);
+      hz::Rng r(ctx.seed * 77 + rd); std::vector<ChunkCase> ks;
+      for (int i = 0; i < 48; i++) { ChunkCase k; static const int CS[] = {3, 5, 7, 8, 11, 13, 16, 17}; k.c = CS[r.below(8)]; k.start = (int)r.below(40); k.combo = (int)r.below(12); int nl = 2 + (int)r.below(10); for (int j = 0; j < nl; j++) k.lines.push_back(reps[r.below(reps.size())]); ks.push_back(k); }
+      for (auto &k : ks) check13(k);   // single-threaded pass (also fills the cache of per-line bytes, which the threads then only read)
+      std::vector<std::string> bad(4); std::vector<std::thread> th;
+      for (int t = 0; t < 4; t++) th.emplace_back([&, t]() { for (int rep = 0; rep < 6 && bad[t].empty(); rep++) for (size_t i = 0; i < ks.size(); i++) { HV v = check13(ks[(i + t * 11) % ks.size()]); if (!v.ok) { bad[t] = serck(ks[(i + t * 11) % ks.size()]) + " : " + v.symptom + " : " + v.detail; break; } } });
+      for (auto &x : th) x.join();
+      std::string why; for (auto &b : bad) if (!b.empty()) { why = b; break; }
+      if (ctx.want_sample()) ctx.put_sample("4 threads x 6 x 48 fitted programs on private instances -> " + (why.empty() ? std::string("all layouts as alone") : why));
+      if (!why.empty()) { hz::Failure f; f.caseid = id; f.text = "4 threads fitting concurrently on private instances"; f.symptom = "fitting-concurrent"; f.detail = why.substr(0, 600); f.tags = {"mn:program", "form:threads", "sym:fitting-concurrent"}; ctx.fail(f); }
+    }
   }
   // long programs on the library-managed buffer: chunk sizes around and beyond its initial length, code that runs past them
   {
@@ -579,6 +598,11 @@ int replay_hist(const std::string &prop, const std::string &caseid, uint64_t see
     printf("%d lines in %d calls on the library-managed buffer: %s\n", nlines, ncalls, ok ? "OK" : "FAIL"); return ok ? 0 : 1;
   }
   if (caseid.compare(0, 4, "C06|") == 0) { C06Case c; if (!parse06(caseid, c)) return 2; HV v = check06(c); printf("%s", join(c.lines).c_str()); if (v.ok) { printf("OK\n"); return 0; } printf("FAIL %s : %s\n", v.symptom.c_str(), v.detail.c_str()); return 1; }
+  if (caseid.compare(0, 5, "C13T|") == 0) { auto f = split(caseid, '|'); if (f.size() != 3) return 2; int rd = atoi(f[1].c_str()); ctx.seed = strtoull(f[2].c_str(), nullptr, 10); const Pool &P = pool(ctx); auto reps = length_reps(P, ctx.seed);
+    hz::Rng r(ctx.seed * 77 + rd); std::vector<ChunkCase> ks; for (int i = 0; i < 48; i++) { ChunkCase k; static const int CS[] = {3, 5, 7, 8, 11, 13, 16, 17}; k.c = CS[r.below(8)]; k.start = (int)r.below(40); k.combo = (int)r.below(12); int nl = 2 + (int)r.below(10); for (int j = 0; j < nl; j++) k.lines.push_back(reps[r.below(reps.size())]); ks.push_back(k); }
+    for (auto &k : ks) check13(k); std::vector<std::string> bad(4); std::vector<std::thread> th;
+    for (int t = 0; t < 4; t++) th.emplace_back([&, t]() { for (int rep = 0; rep < 30 && bad[t].empty(); rep++) for (size_t i = 0; i < ks.size(); i++) { HV v = check13(ks[(i + t * 11) % ks.size()]); if (!v.ok) { bad[t] = v.symptom + " : " + v.detail; break; } } });
+    for (auto &x : th) x.join(); for (auto &b : bad) if (!b.empty()) { printf("FAIL %s\n", b.c_str()); return 1; } printf("OK\n"); return 0; }
   if (caseid.compare(0, 5, "C14E|") == 0) { auto f = split(caseid, '|'); if (f.size() != 5) return 2; static const char *EMPTY[] = {"", "; only a comment\n", "lbl:\n", "\n\n", "section .text\n; x\n\tglobal f\n", "   ", "; no newline"};
     int n = atoi(f[1].c_str()), start = atoi(f[2].c_str()), e = atoi(f[3].c_str()), c = atoi(f[4].c_str()); std::vector<uint8_t> b1(n + 1, 0xcc), b2(n + 1, 0xcc); assemblyline_t a1 = asm_create_instance(b1.data(), n), a2 = asm_create_instance(b2.data(), n); asm_set_offset(a1, start); asm_set_offset(a2, start);
     std::string t = EMPTY[e % 7]; std::vector<char> w(t.begin(), t.end()); w.push_back(0); int cnt = -7; int r1 = asm_assemble_string_counting_chunks(a1, w.data(), c, &cnt), r2 = asm_assemble_str(a2, t.c_str()); int o1 = asm_get_offset(a1), o2 = asm_get_offset(a2); asm_destroy_instance(a1); asm_destroy_instance(a2);
